@@ -316,16 +316,26 @@ def run(plan):
                 after = f["after"] % nbatches
                 prev = None if D.corrected_stack is None else D.corrected_stack.detach().numpy().copy()
                 fault.arm(f["pass"], after)
+                fired = True
                 try:
                     D.reconstruct(max_batch_size=b, **kw)
                     fault.disarm()
-                    raise HarnessError("armed allocation fault did not fire")
+                    # the library streamed fewer batches than ceil(num_bf / batch) - how it partitions
+                    # the pixels is its own business (a tree that skips pixels is judged by the
+                    # comparison below, not by this harness's arithmetic): the call simply succeeded
+                    fired = False
+                    bump(res["obs"], "alloc_fault_position_not_reached")
                 except MemoryError:
                     fault.disarm()
                     bump(res["faults"], f"alloc_error_pass{f['pass'] + 1}")
+                except Exception as e:
+                    fault.disarm()
+                    viol("op_raised", f"{tag}: reconstruct(max_batch_size={b}) with an armed allocation "
+                         f"fault raised {e!r}", f"op_raised:reconstruct:{kern}:{type(e).__name__}")
+                    continue
                 now = None if D.corrected_stack is None else D.corrected_stack.detach().numpy()
-                if (prev is None) != (now is None) or (prev is not None and (
-                        prev.shape != now.shape or prev.tobytes() != now.tobytes())):
+                if fired and ((prev is None) != (now is None) or (prev is not None and (
+                        prev.shape != now.shape or prev.tobytes() != now.tobytes()))):
                     viol("failed_call_changed_output", f"{tag}: corrected_stack changed by a call "
                          f"that raised MemoryError in pass {f['pass'] + 1}",
                          f"failed_call_changed_output:{kern}")
